@@ -34,13 +34,19 @@ void harness(void) {
     /* ---------- symbolic payload ---------- */
     DECL_SLOT_INPUTS(0) DECL_SLOT_INPUTS(1) DECL_SLOT_INPUTS(2) DECL_SLOT_INPUTS(3) DECL_SLOT_INPUTS(4)
     ND_ARR(uint8_t, in_imm, 10);
+#ifdef FIX_I3
+    in_i3 = FIX_I3;      /* operand S1 (when an int) fixed: keeps element selection concrete */
+#endif
+#ifdef FIX_I4
+    in_i4 = FIX_I4;
+#endif
     ASSUME(in_x0 <= 2 && in_x1 <= 2 && in_x2 <= 2 && in_x3 <= 2 && in_x4 <= 2);   /* hidden references held elsewhere */
 #if POST == 2 || POST == 4 || POST == 3 || POST == 6
     ASSUME(in_x2 >= 1);   /* the container outlives the instruction so that the postcondition can inspect it */
 #endif
 
     /* ---------- module ---------- */
-    memset(vs_code, 0, sizeof vs_code);                     /* NOPs */
+    /* vs_code is static: all NOPs (0x00) until written */
     vs_code[0] = OPC;
     for (int i = 0; i < 10; i++) vs_code[1 + i] = in_imm[i];
 #ifdef IMM_FIX0
@@ -55,12 +61,24 @@ void harness(void) {
 #ifdef IMM_FIX3
     vs_code[4] = IMM_FIX3;
 #endif
+#ifdef IMM_FIX4
+    vs_code[5] = IMM_FIX4;
+#endif
+#ifdef IMM_FIX5
+    vs_code[6] = IMM_FIX5;
+#endif
+#ifdef IMM_FIX6
+    vs_code[7] = IMM_FIX6;
+#endif
+#ifdef IMM_FIX7
+    vs_code[8] = IMM_FIX7;
+#endif
     vs_fns[0].name_idx = 0; vs_fns[0].arity = 0; vs_fns[0].code_offset = 0; vs_fns[0].code_length = 32;
     vs_fns[0].local_count = NLOCALS; vs_fns[0].upvalue_count = 0;
     vs_fns[1].name_idx = 1; vs_fns[1].arity = FN1_ARITY; vs_fns[1].code_offset = 32; vs_fns[1].code_length = 16;
     vs_fns[1].local_count = FN1_LOCALS; vs_fns[1].upvalue_count = 1;
     vs_strings[0] = vs_str0; vs_strlens[0] = 2; vs_strings[1] = vs_str1; vs_strlens[1] = 0;
-    memset(&vs_mod, 0, sizeof vs_mod);
+    /* vs_mod, vs_vm are static: zero-initialised (a memset here would make every field read non-constant for CBMC) */
     vs_mod.code = vs_code; vs_mod.code_size = 48; vs_mod.code_capacity = 48;
     vs_mod.functions = vs_fns; vs_mod.function_count = 2; vs_mod.function_capacity = 2;
     vs_mod.strings = vs_strings; vs_mod.string_lengths = vs_strlens; vs_mod.string_count = 2; vs_mod.string_capacity = 2;
@@ -77,7 +95,7 @@ void harness(void) {
     for (int s = 0; s < NSLOTS; s++) vs_slotval[s] = sv[s];
 
     /* ---------- VM state ---------- */
-    memset(&vs_vm, 0, sizeof vs_vm);
+
     vs_vm.module = &vs_mod;
     vs_vm.stack = vs_stack; vs_vm.stack_capacity = VERIF_VM_STACK;
     vs_vm.cop_in_fd = -1; vs_vm.cop_out_fd = -1; vs_vm.cop_pid = -1;
@@ -88,25 +106,25 @@ void harness(void) {
     /* caller frame (fn0) with its two locals, then current frame of fn1 */
     vs_vm.frames[0].fn_idx = 0; vs_vm.frames[0].return_ip = 0; vs_vm.frames[0].stack_base = 0; vs_vm.frames[0].local_count = NLOCALS;
     vs_vm.frames[0].module = &vs_mod;
-    for (int i = 0; i < NLOCALS; i++) { memset(&vs_stack[sp], 0, sizeof(NanoValue)); vs_stack[sp].tag = TAG_VOID; sp++; }
+    for (int i = 0; i < NLOCALS; i++) { vs_stack[sp] = NV_ZERO; vs_stack[sp].tag = TAG_VOID; sp++; }
     vs_vm.frames[1].fn_idx = 1; vs_vm.frames[1].return_ip = 5; vs_vm.frames[1].stack_base = sp; vs_vm.frames[1].local_count = FN1_LOCALS;
     vs_vm.frames[1].module = &vs_mod;
     vs_vm.frame_count = 2; vs_vm.current_fn = 1; vs_vm.ip = 32;
-    vs_code[32] = OPC; for (int i = 0; i < 10; i++) vs_code[33 + i] = in_imm[i];
+    for (int i = 0; i < 11; i++) vs_code[32 + i] = vs_code[i];
     vs_code[0] = 0;
     { uint32_t base = sp;
       vs_stack[sp] = sv[0]; if (slot_kind[0] == K_NONE) vs_stack[sp].tag = TAG_VOID; ref_to(vs_stack[sp]); sp++;
-      for (uint32_t i = 1; i < FN1_LOCALS; i++) { memset(&vs_stack[sp], 0, sizeof(NanoValue)); vs_stack[sp].tag = TAG_VOID; sp++; }
+      for (uint32_t i = 1; i < FN1_LOCALS; i++) { vs_stack[sp] = NV_ZERO; vs_stack[sp].tag = TAG_VOID; sp++; }
       (void)base; }
 #else
     vs_vm.frames[0].fn_idx = 0; vs_vm.frames[0].return_ip = 0; vs_vm.frames[0].stack_base = 0; vs_vm.frames[0].local_count = NLOCALS;
     vs_vm.frames[0].module = &vs_mod;
 #ifdef FRAME_CLOSURE     /* current frame runs a closure: slot G0 must be K_CLOSURE; it is the frame's closure */
-    vs_vm.frames[0].closure = sv[1].as.closure;
+    vs_vm.frames[0].closure = sv[1].as.closure; ref_to(sv[1]);   /* the frame holds its own reference */
 #endif
     vs_vm.frame_count = 1; vs_vm.current_fn = 0; vs_vm.ip = 0;
     vs_stack[sp] = sv[0]; if (slot_kind[0] == K_NONE) vs_stack[sp].tag = TAG_VOID; ref_to(vs_stack[sp]); sp++;
-    for (int i = 1; i < NLOCALS; i++) { memset(&vs_stack[sp], 0, sizeof(NanoValue)); vs_stack[sp].tag = TAG_VOID; sp++; }
+    for (int i = 1; i < NLOCALS; i++) { vs_stack[sp] = NV_ZERO; vs_stack[sp].tag = TAG_VOID; sp++; }
 #endif
     if (slot_kind[1] != K_NONE) { vs_vm.globals[0] = sv[1]; ref_to(sv[1]); vs_vm.global_count = 1; }
 #if NARGS > 0
@@ -193,16 +211,20 @@ static void audit(const VmTrap *trap) {
     for (uint32_t i = 0; i < VERIF_VM_STACK; i++) if (i < vs_vm.stack_size) count_ref(vs_vm.stack[i], 1);
     for (uint32_t i = 0; i < VM_MAX_GLOBALS; i++) count_ref(vs_vm.globals[i], 1);
     for (uint32_t f = 0; f < VM_MAX_FRAMES; f++) if (f < vs_vm.frame_count && vs_vm.frames[f].closure) {
-        NanoValue cv; memset(&cv, 0, sizeof cv); cv.tag = TAG_FUNCTION; cv.as.closure = vs_vm.frames[f].closure; count_ref(cv, 1); }
+        NanoValue cv = NV_ZERO; cv.tag = TAG_FUNCTION; cv.as.closure = vs_vm.frames[f].closure; count_ref(cv, 1); }
     if (trap->type == TRAP_PRINT) count_ref(trap->data.print.value, 1);
     if (trap->type == TRAP_ASSERT) count_ref(trap->data.assert_check.condition, 1);
     /* registered containers that are still allocated hold references to their children */
     for (int k = 0; k < MAXREG; k++) if (k < g_nreg && !is_freed(g_reg[k].p)) count_children(g_reg[k].p, g_reg[k].tag, 1);
+    CHECK(!g_freed_overflow, "HARNESS: ghost freed-list capacity exceeded (verdict would be unreliable)");
     CHECK(!g_double_free, "no object is freed twice");
     CHECK(!g_dangling, "no root or live container refers to a freed object created by this instruction");
     CHECK(!g_new_bad, "objects created by the instruction and reachable have ref_count >= 1");
     for (int k = 0; k < MAXREG; k++) if (k < g_nreg) {
         uint32_t need = g_indeg[k] + g_reg[k].extra;
+#ifdef REPLAY
+        fprintf(stderr, "audit: obj %d tag=%d freed=%d indeg=%u extra=%u rc=%u\n", k, g_reg[k].tag, is_freed(g_reg[k].p), g_indeg[k], g_reg[k].extra, is_freed(g_reg[k].p) ? 0 : ((VmHeapHeader *)g_reg[k].p)->ref_count);
+#endif
         if (is_freed(g_reg[k].p)) CHECK(need == 0, "a freed object has no remaining reference (no dangling value)");
         else CHECK(((VmHeapHeader *)g_reg[k].p)->ref_count >= need, "ref_count >= number of references");
 #ifdef STRICT_LEAK
